@@ -11,6 +11,7 @@ import (
 
 	logging "github.com/ipfs/go-log/v2"
 	"github.com/ipld/go-storethehash/store/types"
+	"github.com/ipld/go-storethehash/store/vhook"
 )
 
 var log = logging.Logger("storethehash/index")
@@ -159,10 +160,12 @@ func (index *Index) gc(ctx context.Context, scanFree bool) (int64, int, error) {
 			// If this is first index file, then update header and remove file.
 			if header.FirstFile == fileNum {
 				header.FirstFile++
+				vhook.Point("idxgc.beforeHeader")
 				err = writeHeader(index.headerPath, header)
 				if err != nil {
 					return 0, 0, err
 				}
+				vhook.Point("idxgc.beforeUnlink")
 				err = os.Remove(indexPath)
 				if err != nil {
 					return 0, 0, err
@@ -216,6 +219,7 @@ func (index *Index) truncateFreeFiles(ctx context.Context) (int64, int, error) {
 		}
 	}
 
+	vhook.Point("idxgc.afterFreeScan")
 	var emptied int
 	var reclaimed int64
 	basePath := index.basePath
@@ -356,6 +360,7 @@ func (index *Index) reapIndexRecords(ctx context.Context, fileNum uint32, indexP
 		if err != nil {
 			return false, err
 		}
+		vhook.Point("idxgc.afterBusy")
 		if inUse {
 			// Record is in use.
 			busyAt = pos
@@ -393,6 +398,7 @@ func (index *Index) reapIndexRecords(ctx context.Context, fileNum uint32, indexP
 
 	// If there is a span of free records at end of file, truncate file.
 	if freeAt > busyAt {
+		vhook.Point("idxgc.beforeTruncate")
 		// End of primary is free.
 		if err = file.Truncate(freeAt); err != nil {
 			return false, fmt.Errorf("failed to truncate index file: %w", err)
